@@ -2084,6 +2084,53 @@ done:
     return ret_value;
 } /* hdf_cdf_clobber */
 
+#ifdef WRITE_NDG
+/* ----------------------------------------------------------------
+** The dimension record (SDD) that hdf_write_var keeps in a variable's NDG for
+** the older SDS interface holds the number of records of a record variable.
+** When records were appended and nothing else changed, the NDG is not written
+** again: bring the record count in its SDD up to date.
+*/
+static int
+hdf_update_ndg_numrecs(NC *handle, NC_var *var)
+{
+    int32  GroupID;
+    int32  aid;
+    int    nobj, i;
+    uint16 tag, ref, sdd_ref = 0;
+    uint8  buf[4];
+    uint8 *bufp = buf;
+
+    if (var->ndg_ref == 0 || Hexist(handle->hdf_file, DFTAG_NDG, var->ndg_ref) == FAIL)
+        return SUCCEED; /* no NDG kept for this variable */
+
+    if ((GroupID = DFdiread(handle->hdf_file, DFTAG_NDG, var->ndg_ref)) < 0)
+        return FAIL;
+    nobj = DFdinobj(GroupID);
+    for (i = 0; i < nobj; i++) { /* (the group is released with its last member) */
+        if (DFdiget(GroupID, &tag, &ref) == FAIL)
+            return FAIL;
+        if (tag == DFTAG_SDD && sdd_ref == 0)
+            sdd_ref = ref;
+    }
+    if (sdd_ref == 0)
+        return SUCCEED;
+
+    /* the record dimension is the first one, behind the 2-byte rank */
+    INT32ENCODE(bufp, (int32)var->numrecs);
+    if ((aid = Hstartaccess(handle->hdf_file, DFTAG_SDD, sdd_ref, DFACC_WRITE)) == FAIL)
+        return FAIL;
+    if (Hseek(aid, 2, DF_START) == FAIL || Hwrite(aid, 4, buf) != 4) {
+        Hendaccess(aid);
+        return FAIL;
+    }
+    if (Hendaccess(aid) == FAIL)
+        return FAIL;
+
+    return SUCCEED;
+} /* hdf_update_ndg_numrecs */
+#endif /* WRITE_NDG */
+
 /* -------------------------- hdf_close --------------------- */
 /*
   We're about to close the file, do last minute HDF cleanup
@@ -2204,6 +2251,19 @@ hdf_close(NC *handle)
         if (FAIL == Vdetach(vg)) {
             HGOTO_FAIL(FAIL);
         }
+
+#ifdef WRITE_NDG
+        /* the NDGs of the record variables hold the number of records too */
+        if (handle->vars) {
+            vars = handle->vars->values;
+            for (i = 0; i < handle->vars->count; i++) {
+                vp = (NC_var **)vars;
+                if (IS_RECVAR(*vp) && hdf_update_ndg_numrecs(handle, *vp) == FAIL)
+                    HGOTO_FAIL(FAIL);
+                vars += handle->vars->szof;
+            }
+        }
+#endif
 
     } /* end if we need to flush out unlimited dimensions? */
 
